@@ -26,7 +26,7 @@ func init() {
 		Level: "fault_enumeration",
 		Rule: "a real p9p.CSession client with P in {1,2,3,5,8,16} pending calls (unique ids) against a scripted fake server on a fault-injecting in-memory connection. Fault enumeration over a recorded fault-free run of the same scenario: the inbound stream is failed at EVERY byte offset k of the reply stream (error and EOF flavours), " +
 			"the connection is closed by the peer after every number of replies, EVERY client write j is failed (0 or partial bytes passed on), the session context is cancelled after every number of replies, and every single pending call is cancelled on its own; read errors come as plain errors and as permanent net.Errors (a client that keeps reading a permanently failed connection is detected by counting its reads after the failure, not by a timer); a call with a deadline context completes, the connection's (virtual) clock then passes that deadline, and a call without deadline must still go through on a connection that honours write deadlines; while one request write is stalled inside the connection, further calls are issued and their contexts ended (or had ended before): each must return. " +
-			"Hostile-peer sampling: valid frames with unknown / repeated / NOTAG / neighbouring tags, every R- and T-type as reply to every request kind, Rversion mid-session, frames from the abnormal classes (length prefix 0-3, truncated body, hostile inner lengths, unknown type, oversize), malformed directory data under a CFileSys listing (entry size and inner length fields claiming anything, cut entries, garbage) and pure garbage, followed or not by the correct replies. " +
+			"Hostile-peer sampling: valid frames with unknown / repeated / NOTAG / neighbouring tags, every R- and T-type as reply to every request kind (once, or up to four times on the same tag), Rversion mid-session, the Tversion of the handshake answered with frames of other types, abnormal frames, garbage or odd Rversions, frames from the abnormal classes (length prefix 0-3, truncated body, hostile inner lengths, unknown type, oversize), malformed directory data under a CFileSys listing (entry size and inner length fields claiming anything, cut entries, garbage) and pure garbage, followed or not by the correct replies. " +
 			"Oracle: the worker process survives (a crash is attributed to the logged case); at quiescence every pending call has returned; calls whose reply arrived intact before the fault return their own id, the others an error; a later call returns an error; a per-call cancel returns and leaves the other calls' results intact; a wrong-typed reply surfaces as an error. " +
 			"non-trivial = >= 1 call pending at the fault / hostile frame; distinct by (fault kind, index, pending count) or (frame class, request kind, pending count)",
 		Assumptions: []string{
@@ -39,7 +39,7 @@ func init() {
 		Shards:    shards(8, 16),
 		Timeout:   timeouts(12*time.Minute, 90*time.Minute),
 		MinEvals:  200,
-		Required:  []string{"fault:read-error", "fault:read-eof", "fault:peer-close", "fault:write-fail", "fault:ctx-cancel", "fault:call-cancel", "hostile:unknown-tag", "hostile:repeated-tag", "hostile:wrong-type", "hostile:abnormal-frame", "hostile:garbage", "hostile:overlong-rread", "hostile:dir-data", "fault:local-failure", "fault:read-neterror", "fault:deadline-then-plain", "fault:cancel-while-writer-busy", "later_call_checked", "pending_calls_returned"},
+		Required:  []string{"fault:read-error", "fault:read-eof", "fault:peer-close", "fault:write-fail", "fault:ctx-cancel", "fault:call-cancel", "hostile:unknown-tag", "hostile:repeated-tag", "hostile:wrong-type", "hostile:abnormal-frame", "hostile:garbage", "hostile:overlong-rread", "hostile:dir-data", "hostile:handshake", "hostile:wrong-type-repeated", "fault:local-failure", "fault:read-neterror", "fault:deadline-then-plain", "fault:cancel-while-writer-busy", "later_call_checked", "pending_calls_returned"},
 		Run:       runC12,
 	})
 }
@@ -226,6 +226,12 @@ func runC12(w *mon.W) {
 		idx++
 		if w.Mine(idx) {
 			c12Hostile(w, i)
+		}
+	}
+	for i := 0; i < w.Scale(200, 20000); i++ {
+		idx++
+		if w.Mine(idx) {
+			c12HostileHandshake(w, i)
 		}
 	}
 }
@@ -861,6 +867,78 @@ func c12DeadlineThenPlain(w *mon.W, P, variant, scen int) {
 
 // ---- hostile peer
 
+// c12HostileHandshake: the peer answers the client's Tversion with anything but a proper
+// Rversion. CSession must return (an error, or a session if the answer happens to be
+// acceptable) and the process must survive.
+func c12HostileHandshake(w *mon.W, no int) {
+	r := w.Rng
+	g := gen.Small(r)
+	g.MaxStr, g.MaxData, g.MaxList = 20, 40, 3
+	var raw []byte
+	class := ""
+	switch r.Intn(5) {
+	case 0, 1:
+		// a well-formed frame of some other type on the version tag
+		var m p9p.Message
+		for {
+			m = g.Msg(gen.Kinds[r.Intn(len(gen.Kinds))])
+			if m.Type() != p9p.Rversion {
+				break
+			}
+		}
+		tag := p9p.NOTAG
+		if r.Intn(4) == 0 {
+			tag = p9p.Tag(r.Intn(65536))
+		}
+		raw = refcodec.MustFrame(&p9p.Fcall{Type: m.Type(), Tag: tag, Message: m})
+		class = "other-type:" + m.Type().String()
+	case 2:
+		f := genFrameC03(w, g, 65536, false)
+		raw = f.bytes
+		class = "frame-class:" + f.class
+	case 3:
+		raw = make([]byte, 1+r.Intn(40))
+		r.Read(raw)
+		class = "garbage"
+	default:
+		// an Rversion with odd contents
+		ms := []uint32{0, 1, 18, 19, 23, 24, 1 << 31, 1<<32 - 1}[r.Intn(8)]
+		raw = refcodec.MustFrame(&p9p.Fcall{Type: p9p.Rversion, Tag: p9p.NOTAG, Message: p9p.MessageRversion{MSize: ms, Version: []string{"", "unknown", "9P2000.u", "9P2000", g.StrN(300)}[r.Intn(5)]}})
+		class = "odd-rversion"
+	}
+	desc := fmt.Sprintf("hostile handshake #%d: Tversion answered with %s (%s)", no, class, hexHead(raw))
+	w.Case("C12 %s", desc)
+	w.Eval()
+	w.Count("hostile:handshake", 1)
+	h := newCliH(0, 1<<20)
+	defer h.close()
+	h.handshakeRaw = raw
+	fin := make(chan struct{})
+	var derr error
+	go func() { derr = h.dial(); close(fin) }()
+	if !settle() {
+		w.Inconclusive("watchdog")
+		return
+	}
+	select {
+	case <-fin:
+	default:
+		// the answer may have been an incomplete frame: the peer now goes away
+		h.srv.Close()
+		if q := mon.AwaitQuiesce(fin); !q.Done {
+			if q.Hung {
+				w.Violate("hang", "C12:handshake-hangs:"+q.Sites, fmt.Sprintf("%s: CSession does not return after the peer closed; blocked at %s", desc, q.Sites), nil)
+			}
+			return
+		}
+	}
+	if derr == nil && !strings.HasPrefix(class, "odd-rversion") && !strings.HasPrefix(class, "frame-class") {
+		w.Violate("mismatch", "C12:handshake-accepted", fmt.Sprintf("%s: CSession reported success", desc), nil)
+		return
+	}
+	w.NT("handshake/" + class)
+}
+
 func c12Hostile(w *mon.W, no int) {
 	r := w.Rng
 	P := 1 + r.Intn(6)
@@ -957,6 +1035,11 @@ func c12Hostile(w *mon.W, no int) {
 			}
 		}
 		frames = append(frames, mk(victim.req.Tag, m))
+		// ... possibly several times on the same tag (the first one ends the call; the others are strays)
+		for k := r.Intn(4); k > 0; k-- {
+			frames = append(frames, mk(victim.req.Tag, m))
+			w.Count("hostile:wrong-type-repeated", 1)
+		}
 		wrongTyped[victim.uid] = true
 		w.Count("hostile:wrong-type", 1)
 	case "abnormal-frame":
